@@ -281,6 +281,8 @@ def mutate_design(rng, X, kind):
         X *= 10.0 ** rng.uniform(-3, 3, size=p)
     elif k == "zero_cols_many":
         X[:, rng.choice(p, max(1, p // 3), replace=False)] = 0.0
+    elif k not in ("dup_col",):
+        raise KeyError("unknown design mutation %r" % kind)        # a silent no-op would leave a scenario untested
     return np.asfortranarray(X)
 
 
